@@ -190,7 +190,7 @@ func (c *Ctx) c06Misc(f *ircFacts, fns []*load.FuncInfo, arm *load.FuncInfo) {
 				}
 				// G9: regexp.MustCompile / template.Must on non-constants
 				if fn := astx.Callee(info, x); fn != nil && strings.HasPrefix(fn.Name(), "Must") && len(x.Args) >= 1 {
-					if _, isConst := astx.ConstString(info, x.Args[0]); !isConst {
+					if _, isConst := astx.ConstString(info, x.Args[0]); !isConst && !c.onlyAtInit(fi) {
 						r.Fail("C06.G9", fi.Name(), astx.Str(x.Fun)+" on a non-constant", c.P.Pos(x.Pos()), "a Must* function panics when its input (derived from client data) is invalid")
 					}
 				}
@@ -366,4 +366,51 @@ func (c *Ctx) c06Misc(f *ircFacts, fns []*load.FuncInfo, arm *load.FuncInfo) {
 		}
 	}
 	r.Check(nAcq >= 8, "C06.G8", "scope", "lock acquisitions inside the step enumerated", "-", itoa(nAcq), "fewer lock acquisitions than expected")
+}
+
+// onlyAtInit: the function is called from package-level variable initialisers and init functions only — no function body of
+// the module calls it or takes its value. What it does happens before the first entry is applied.
+func (c *Ctx) onlyAtInit(fi *load.FuncInfo) bool {
+	if fi.Obj == nil || fi.Obj.Exported() {
+		return false
+	}
+	used := false
+	for _, f := range c.P.AllFuncs {
+		if f.Body() == nil || f == fi || (f.Decl != nil && f.Decl.Recv == nil && f.Decl.Name.Name == "init") {
+			continue
+		}
+		info := f.Info()
+		ast.Inspect(f.Body(), func(n ast.Node) bool {
+			if id, ok := n.(*ast.Ident); ok && info.Uses[id] == types.Object(fi.Obj) {
+				used = true
+			}
+			return !used
+		})
+		if used {
+			return false
+		}
+	}
+	// … nor a function literal stored in a package-level variable (it runs whenever the variable is called)
+	for _, file := range fi.Pkg.Syntax {
+		for _, d := range file.Decls {
+			gd, ok := d.(*ast.GenDecl)
+			if !ok {
+				continue
+			}
+			ast.Inspect(gd, func(n ast.Node) bool {
+				lit, ok := n.(*ast.FuncLit)
+				if !ok {
+					return !used
+				}
+				ast.Inspect(lit, func(m ast.Node) bool {
+					if id, ok := m.(*ast.Ident); ok && fi.Pkg.TypesInfo.Uses[id] == types.Object(fi.Obj) {
+						used = true
+					}
+					return !used
+				})
+				return false
+			})
+		}
+	}
+	return !used
 }
